@@ -155,7 +155,7 @@ func report(id, tier string, seed int, sc *Sidecar, ld *Loaded, sums []*harnessS
 						mismatches++
 						if mismatches <= 5 {
 							fmt.Fprintf(os.Stderr, "ENGINE-MISMATCH witness harness=%s expected=%s got=%s(%s %s)\n  vars=%v\n  interp obs=%v\n  native obs=%v\n",
-								m.Harness, exp, rr.Outcome, rr.Label, firstLine(rr.Msg), m.Vars, r.res.Obs, rr.Obs)
+								m.Harness, exp, rr.Outcome, rr.Label, firstLine(rr.Msg), m.Vars, clip(fmt.Sprint(r.res.Obs)), clip(fmt.Sprint(rr.Obs)))
 						}
 					}
 				case "violation":
@@ -450,4 +450,11 @@ func runReplayFile(path string) int {
 
 func selftest() int {
 	return runSelftest()
+}
+
+func clip(s string) string {
+	if len(s) > 400 {
+		return s[:400] + "..."
+	}
+	return s
 }
